@@ -1,5 +1,5 @@
 (* The accessors on the tree of a well-formed relationship field:
-   racc (rtree_of f) = Ok (rcontent_drop_neg f), and the readers' text. *)
+   racc (rtree_of f) = Ok (rcontent_acc f), and the readers' text. *)
 From Coq Require Import DecimalN DecimalFacts.
 From V.model Require Import Base RelLex RelParse RelAcc RelGrammar.
 From V.proofs Require Import BaseP RelLexP RelParseP RelGrammarLexP RelGrammarParseP.
@@ -249,23 +249,36 @@ Proof.
 Qed.
 
 (* ---- architectures ---- *)
-Lemma tok_texts_terms terms : tok_texts_of_kind IDENT (elems (flat_map term_toks terms)) = map t_name terms.
+Lemma arch_fold_ws w : forall X b, arch_fold (ws_elems w ++ X) b = arch_fold X b.
 Proof.
-  induction terms as [|t r IH]; [reflexivity|]. cbn [flat_map map]. rewrite elems_app, tok_texts_app, IH.
-  unfold term_toks. rewrite elems_app, tok_texts_app. fold (ws_elems (t_ws t)). rewrite tok_texts_ws by reflexivity.
-  destruct (t_neg t); reflexivity.
+  unfold ws_elems. pose proof (ws_toks_kinds w) as H.
+  induction (ws_toks w) as [|[k s] t IH]; intros X b; [reflexivity|].
+  inversion H as [|? ? Hk Ht]; subst. cbn [fst] in Hk.
+  cbn [elems map tk fst snd app arch_fold]. change (map tk t) with (elems t).
+  destruct k; try discriminate; cbn [rkind_eqb rkind_code N.eqb Pos.eqb]; apply IH, Ht.
+Qed.
+
+Lemma arch_fold_terms terms : forall X,
+  arch_fold (elems (flat_map term_toks terms) ++ X) false = map (fun t => arch_acc_text (term_arch t)) terms ++ arch_fold X false.
+Proof.
+  induction terms as [|t r IH]; intros X; [reflexivity|]. cbn [flat_map map]. rewrite elems_app, <- app_assoc.
+  unfold term_toks at 1. rewrite !elems_app, <- !app_assoc. fold (ws_elems (t_ws t)). rewrite arch_fold_ws.
+  unfold arch_acc_text, term_arch. cbn [fst snd].
+  destruct (t_neg t); cbn [neg_toks neg_text elems map tk fst snd app arch_fold rkind_eqb rkind_code N.eqb Pos.eqb];
+    rewrite IH; reflexivity.
 Qed.
 
 Lemma acc_archs r last :
-  relation_architectures (rel_tree r last) = option_map (fun g => map t_name (g_terms g)) (r_archs r).
+  relation_architectures (rel_tree r last) =
+  option_map (fun g => map (fun t => arch_acc_text (term_arch t)) (g_terms g)) (r_archs r).
 Proof.
   unfold relation_architectures. rewrite fn_rel by discriminate. cbn [rkind_eqb rkind_code N.eqb Pos.eqb].
   destruct (r_archs r) as [g|]; cbn [option_map]; [|reflexivity]. f_equal.
   unfold arch_node, group_node, group_body_toks. cbn [children].
   change (elems ((L_BRACKET, [91%N]) :: ?x)) with (Tok L_BRACKET [91%N] :: elems x).
-  change (tok_texts_of_kind IDENT (Tok L_BRACKET [91%N] :: ?x)) with (tok_texts_of_kind IDENT x).
-  rewrite !elems_app, !tok_texts_app, tok_texts_terms. fold (ws_elems (g_ws1 g)).
-  rewrite tok_texts_ws by reflexivity. cbn. rewrite app_nil_r. reflexivity.
+  cbn [arch_fold rkind_eqb rkind_code N.eqb Pos.eqb].
+  rewrite elems_app, arch_fold_terms, elems_app. fold (ws_elems (g_ws1 g)). rewrite arch_fold_ws.
+  cbn. rewrite app_nil_r. reflexivity.
 Qed.
 
 (* ---- profiles ---- *)
@@ -382,10 +395,10 @@ Qed.
 
 (* ---- a relation, an entry, the field ---- *)
 Lemma relation_acc_rel r last : wf_rel r = true ->
-  relation_acc (rel_tree r last) = Ok (relx_drop_neg (rel_content r)).
+  relation_acc (rel_tree r last) = Ok (relx_acc (rel_content r)).
 Proof.
   intros H. unfold relation_acc. rewrite acc_name, (acc_ver r last H), acc_qual, acc_archs, (acc_profs r last H).
-  unfold relx_drop_neg, rel_content. cbn [x_name x_qual x_ver x_archs x_profs]. f_equal. f_equal.
+  unfold relx_acc, rel_content. cbn [x_name x_qual x_ver x_archs x_profs]. f_equal. f_equal.
   destruct (r_archs r) as [g|]; cbn [option_map]; [|reflexivity]. rewrite map_map. reflexivity.
 Qed.
 
@@ -396,7 +409,7 @@ Proof. apply nodes_of_elems. Qed.
 
 Lemma entry_acc_rels alts : forall r last, wf_rel r = true -> forallb wf_alt alts = true ->
   res_all relation_acc (nodes_of RELATION (rels_elems r alts last)) =
-  Ok (relx_drop_neg (rel_content r) :: map (fun wr => relx_drop_neg (rel_content (snd wr))) alts).
+  Ok (relx_acc (rel_content r) :: map (fun wr => relx_acc (rel_content (snd wr))) alts).
 Proof.
   induction alts as [|[w r'] alts IH]; intros r last Hr Ha; cbn [rels_elems].
   - change (nodes_of RELATION (rel_tree r last :: ?x)) with (rel_tree r last :: nodes_of RELATION x).
@@ -414,7 +427,7 @@ Qed.
 
 Lemma entry_acc_entry r alts last : wf_rel r = true -> forallb wf_alt alts = true ->
   entry_acc (Node ENTRY (rels_elems r alts last)) =
-  Ok (relx_drop_neg (rel_content r) :: map (fun wr => relx_drop_neg (rel_content (snd wr))) alts).
+  Ok (relx_acc (rel_content r) :: map (fun wr => relx_acc (rel_content (snd wr))) alts).
 Proof. intros Hr Ha. exact (entry_acc_rels alts r last Hr Ha). Qed.
 
 Lemma texts_elems l : texts (elems l) = rttext l.
@@ -433,7 +446,7 @@ Qed.
 
 Lemma field_entries a more : forall i, wf_item a i = true -> forallb (wf_more a) more = true ->
   res_all entry_acc (nodes_of ENTRY (items_elems i more)) =
-  Ok (map (map relx_drop_neg) (flat_map item_entries (i :: map snd more))).
+  Ok (map (map relx_acc) (flat_map item_entries (i :: map snd more))).
 Proof.
   induction more as [|[w i'] more IH]; intros i Hi Hm; cbn [items_elems is_nil].
   - rewrite app_nil_r. destruct i as [r alts|seg segs trail|]; cbn [item_elems item_entries flat_map map app wf_item] in *.
@@ -472,7 +485,7 @@ Proof.
     + reflexivity.
 Qed.
 
-Theorem racc_rtree_of a f : wf_rfield a f = true -> racc (rtree_of f) = Ok (rcontent_drop_neg f).
+Theorem racc_rtree_of a f : wf_rfield a f = true -> racc (rtree_of f) = Ok (rcontent_acc f).
 Proof.
   intros H. unfold wf_rfield in H. andb_split H.
   unfold racc, relations_entries, relations_substvars, r_entries, rnodes_of_kind, rtree_of. cbn [children].
@@ -504,7 +517,7 @@ Theorem C10_lossless_all a f : wf_rfield a f = true ->
   parse_tokens a (rtoks f) = Ok (rtree_of f, 0) /\
   parse_relaxed (rrender f) a = Ok (rtree_of f, 0) /\
   text (rtree_of f) = rrender f /\
-  racc (rtree_of f) = Ok (rcontent_drop_neg f).
+  racc (rtree_of f) = Ok (rcontent_acc f).
 Proof.
   intros H. split; [apply (rlex_rrender a), H|]. split; [apply parse_rtoks, H|].
   split; [apply parse_rrender, H|]. split; [apply (text_rtree_of a), H|apply (racc_rtree_of a), H].
@@ -514,32 +527,42 @@ Qed.
 Theorem from_str_rrender f : wf_rfield false f = true -> relations_from_str (rrender f) = Ok (rtree_of f).
 Proof. intros H. unfold relations_from_str. rewrite (parse_rrender false f H). reflexivity. Qed.
 
-(* ---- negated architectures: the accessor result seen as content ---- *)
-Lemma relc_view_drop x : existsb fst (match x_archs x with Some l => l | None => [] end) = false ->
-  relc_view (relx_drop_neg x) = x.
+(* ---- the accessor result read back as content ---- *)
+Lemma arch_view_text t : ident_ok (t_name t) = true -> arch_of_text (arch_acc_text (term_arch t)) = term_arch t.
 Proof.
-  destruct x as [n q v ar p]. unfold relc_view, relx_drop_neg. cbn [x_name x_qual x_ver x_archs x_profs c_name c_qual c_ver c_archs c_profs].
-  intros H. f_equal. destruct ar as [l|]; cbn [option_map]; [|reflexivity]. f_equal.
-  induction l as [|[b s] r IH]; [reflexivity|]. cbn [existsb fst] in H. apply orb_false_iff in H. destruct H as [-> Hr].
-  cbn [map snd]. rewrite (IH Hr). reflexivity.
+  intros H. destruct (ident_ok_inv _ H) as (c & w & E & Hc & _). unfold arch_acc_text, term_arch, arch_of_text. cbn [fst snd].
+  rewrite E. destruct (t_neg t); cbn [neg_text app N.eqb Pos.eqb]; [reflexivity|].
+  destruct (N.eqb_spec c 33) as [->|]; [discriminate|reflexivity].
 Qed.
 
-Lemma rel_content_noneg r : rel_neg_arch r = false ->
-  existsb fst (match x_archs (rel_content r) with Some l => l | None => [] end) = false.
+Lemma relc_view_rel r : wf_rel r = true -> relc_view (relx_acc (rel_content r)) = rel_content r.
 Proof.
-  unfold rel_neg_arch, rel_content. cbn [x_archs]. destruct (r_archs r) as [g|]; cbn [option_map]; [|reflexivity].
-  induction (g_terms g) as [|t r' IH]; [reflexivity|]. cbn [existsb map term_arch fst]. intros H.
-  apply orb_false_iff in H. destruct H as [-> Hr]. exact (IH Hr).
+  intros H. unfold wf_rel in H. andb_split H.
+  unfold relc_view, relx_acc, rel_content. cbn [x_name x_qual x_ver x_archs x_profs c_name c_qual c_ver c_archs c_profs].
+  f_equal. destruct (r_archs r) as [g|]; cbn [option_map opt_ok] in *; [|reflexivity]. f_equal.
+  unfold group_ok in W1. apply andb_true_iff in W1. destruct W1 as [W1 _]. apply andb_true_iff in W1. destruct W1 as [_ Htm].
+  unfold terms_ok in Htm.
+  destruct (g_terms g) as [|t0 ts]; [discriminate|]. apply andb_true_iff in Htm. destruct Htm as [Ht0 Hts].
+  assert (Hall : forall t, In t (t0 :: ts) -> ident_ok (t_name t) = true).
+  { intros t [<-|Hin]; [unfold term_ok in Ht0; andb_split Ht0; assumption|].
+    rewrite forallb_forall in Hts. specialize (Hts t Hin). unfold term_ok in Hts. andb_split Hts. assumption. }
+  rewrite !map_map. apply map_ext_in. intros t Hin. apply arch_view_text, Hall, Hin.
 Qed.
 
-Theorem racc_view_noneg f : has_neg_arch f = false -> racc_view (rcontent_drop_neg f) = rcontent f.
+Theorem racc_view_content a f : wf_rfield a f = true -> racc_view (rcontent_acc f) = rcontent f.
 Proof.
-  unfold has_neg_arch, racc_view, rcontent_drop_neg, rcontent. cbn [fst snd]. intros H. f_equal.
-  induction (f_items f) as [|i r IH]; [reflexivity|]. cbn [existsb] in H. apply orb_false_iff in H. destruct H as [Hi Hr].
-  cbn [flat_map]. rewrite !map_app, (IH Hr). f_equal.
-  destruct i as [r0 alts|seg segs trail|]; cbn [item_entries map]; try reflexivity.
-  cbn [item_neg_arch] in Hi. apply orb_false_iff in Hi. destruct Hi as [H0 Ha].
-  rewrite relc_view_drop by (apply rel_content_noneg, H0). do 2 f_equal.
-  induction alts as [|[w r1] alts IHa]; [reflexivity|]. cbn [existsb snd] in Ha. apply orb_false_iff in Ha. destruct Ha as [H1 Ha'].
-  cbn [map snd]. rewrite relc_view_drop by (apply rel_content_noneg, H1). rewrite (IHa Ha'). reflexivity.
+  intros H. unfold wf_rfield in H. andb_split H.
+  unfold racc_view, rcontent_acc, rcontent. cbn [fst snd]. f_equal. unfold f_items.
+  assert (Hi : forall i, wf_item a i = true -> map (map relc_view) (map (map relx_acc) (item_entries i)) = item_entries i).
+  { intros i Hw. destruct i as [r alts|seg segs trail|]; cbn [item_entries map]; try reflexivity.
+    cbn [wf_item] in Hw. apply andb_true_iff in Hw. destruct Hw as [Hr Ha].
+    rewrite (relc_view_rel r Hr). do 2 f_equal.
+    induction alts as [|[w r1] alts IH]; [reflexivity|]. cbn [forallb] in Ha. apply andb_true_iff in Ha. destruct Ha as [Hwr Ha].
+    unfold wf_alt in Hwr. cbn [fst snd] in Hwr. apply andb_true_iff in Hwr. destruct Hwr as [_ Hr1].
+    cbn [map snd]. rewrite (relc_view_rel r1 Hr1), (IH Ha). reflexivity. }
+  cbn [flat_map]. rewrite !map_app, (Hi _ W0). f_equal.
+  clear -W Hi. induction (f_rest f) as [|[w i] r IH]; [reflexivity|].
+  cbn [forallb] in W. apply andb_true_iff in W. destruct W as [Hwi Hr]. unfold wf_more in Hwi. cbn [fst snd] in Hwi.
+  apply andb_true_iff in Hwi. destruct Hwi as [_ Hi'].
+  cbn [map snd flat_map]. rewrite !map_app, (Hi _ Hi'), (IH Hr). reflexivity.
 Qed.
